@@ -1,6 +1,7 @@
 (* C10 — stepping commands execute exactly what they promise. *)
 From Coq Require Import List NArith Bool.
-From Lace Require Import Word Machine Isa Vm Asm Dbg DbgProofs DbgRef.
+From Lace Require Import Word Machine Isa Vm Asm Dbg DbgProofs DbgRef DbgScript.
+From Lace Require Examples.
 Import ListNotations.
 Open Scope N_scope.
 
@@ -190,3 +191,52 @@ Example C10_reference_nonvacuous :
   | _ => False
   end.
 Proof. vm_compute. repeat split. Qed.
+
+(** A whole SCRIPT of stepping commands (DbgScript.v).  [ref_script] folds [ref_cmd] over the script:
+    each command starts from the state at which the previous one paused; its count is the total
+    number of instructions executed.  The session of a waiting debugger (every session starts so)
+    given that script followed by `exit` ends — whatever breakpoints are set, wherever HALT, the end
+    of user space or a refused command comes in between — with `exit` at exactly the reference's
+    machine state after exactly the reference's number of executed instructions, or with the very
+    stop (kind, code, state, instruction count) the reference machine runs into. *)
+Theorem C10_script : forall env fuelR cs d st,
+  Forall resuming cs -> d_status d = WaitForAction ->
+  match ref_script (e_feat env) (d_bps d) fuelR cs st with
+  | PEPaused st' k =>
+      exists j, forall fuel, ends_like (session env (j + fuel) (cs ++ [CExit]) d st 0 0 0) 7 0 st' (N.of_nat k)
+  | PEStopped kind code s k =>
+      exists j, forall fuel, ends_like (session env (j + fuel) (cs ++ [CExit]) d st 0 0 0) kind code s (N.of_nat k)
+  | PEFuel => True
+  end.
+Proof. exact script_exit. Qed.
+Print Assumptions C10_script.
+
+(** The same with anything behind the script: after the stepping commands the debugger is reading
+    the rest of the script ([tail]) at the reference's state. *)
+Theorem C10_script_then : forall env fuelR cs tail d0 st n,
+  Forall resuming cs -> d_status d0 = WaitForAction ->
+  match ref_script (e_feat env) (d_bps d0) fuelR cs st with
+  | PEPaused st' k =>
+      exists j d0' n', d_status d0' = WaitForAction /\ d_bps d0' = d_bps d0 /\
+        forall fuel t e c, exists t' c',
+          session_w env (j + fuel) (wtick env st (cs ++ tail) d0 n) t e c =
+          session_w env fuel (wtick env st' tail d0' n') t' (e + N.of_nat k) c'
+  | PEStopped kind code s k =>
+      exists j, forall fuel t e c,
+        ends_like (session_w env (j + fuel) (wtick env st (cs ++ tail) d0 n) t e c) kind code s (e + N.of_nat k)
+  | PEFuel => True
+  end.
+Proof. exact script_session. Qed.
+Print Assumptions C10_script_then.
+
+(** Non-vacuity: `step; step into 2; continue` on the example program — three instructions, then
+    the `continue` is refused on the HALT that was reached; the session with `exit` behind it agrees. *)
+Example C10_script_nonvacuous :
+  Forall resuming ex_steps /\
+  match ref_script false [] 20 ex_steps Examples.ex_state with
+  | PEPaused st' k => k = 3%nat /\ R st' 0 = 3 /\ at_halt st' = true
+  | _ => False
+  end /\
+  (let r := session Examples.ex_env 20 (ex_steps ++ [CExit]) (Examples.ex_dbg []) Examples.ex_state 0 0 0 in
+   sr_kind r = 7 /\ sr_execs r = 3 /\ R (sr_state r) 0 = 3).
+Proof. split; [exact ex_steps_resuming|]. split; [exact ex_steps_ref|exact ex_steps_session]. Qed.
